@@ -184,6 +184,11 @@ func suiteEvaluators(tier string, seed uint64, model string) *Report {
 		return rep
 	}
 	distinct := map[string]bool{}
+	type rvCand struct {
+		d          Disagreement
+		req, reqSs string
+	}
+	var rvCands []rvCand
 	for i, c := range cases {
 		x := BuildExpr(c.path)
 		desc := reqs[5*i][4:]
@@ -261,6 +266,17 @@ func suiteEvaluators(tier string, seed uint64, model string) *Report {
 		// exact attribution for the recorded behaviour "Locate and Walk do not resolve $ inside a
 		// filter against the document": with every $-operand replaced by the scalar it denotes, the
 		// same call gives the specified result
+		// second attribution, for $-operands that denote containers: the result equals the model's
+		// variant in which a filter's $ is nil (Locate) / the candidate element (Walk); decided
+		// after the loop with one more model batch
+		addLW := func(d Disagreement, mode int) {
+			if d.Class == "" && !strings.HasPrefix(d.Impl, "F ") && filterHasRootOperand(c.path) {
+				rvCands = append(rvCands, rvCand{d, fmt.Sprintf("locatev\t%d\t0\t%s\t%s", mode, PathSexp(c.path), Show(c.data)),
+					fmt.Sprintf("locatev\t%d\t1\t%s\t%s", mode, PathSexp(c.path), Show(c.data))})
+				return
+			}
+			rep.Add(d)
+		}
 		rootClass := func(run func(x jp.Expr) string, locOrdered bool) string {
 			dp, changed, ok := defuseRootOperands(c.path, c.data)
 			if !changed || !ok {
@@ -279,7 +295,7 @@ func suiteEvaluators(tier string, seed uint64, model string) *Report {
 			if cl == "" {
 				cl = rootClass(locRun, locOrdered)
 			}
-			rep.Add(Disagreement{Case: desc, Where: "Expr.Locate", Kind: "impl-vs-spec:evaluator", Impl: loc, Spec: strings.Join(mLoc, " ; "), Class: cl})
+			addLW(Disagreement{Case: desc, Where: "Expr.Locate", Kind: "impl-vs-spec:evaluator", Impl: loc, Spec: strings.Join(mLoc, " ; "), Class: cl}, 0)
 		}
 		// Expr.Walk
 		walkRun := func(x jp.Expr) string {
@@ -302,7 +318,7 @@ func suiteEvaluators(tier string, seed uint64, model string) *Report {
 			if cl == "" {
 				cl = rootClass(walkRun, locOrdered)
 			}
-			rep.Add(Disagreement{Case: desc, Where: "Expr.Walk", Kind: "impl-vs-spec:evaluator", Impl: walk, Spec: strings.Join(mLoc, " ; "), Class: cl})
+			addLW(Disagreement{Case: desc, Where: "Expr.Walk", Kind: "impl-vs-spec:evaluator", Impl: walk, Spec: strings.Join(mLoc, " ; "), Class: cl}, 1)
 		}
 		// gen data: GetNodes / FirstNode / Get on gen
 		gd := toGen(c.data)
@@ -370,7 +386,30 @@ func suiteEvaluators(tier string, seed uint64, model string) *Report {
 		}
 	}
 	_ = gen.Int(0)
+	if len(rvCands) > 0 {
+		var rq []string
+		for _, rc := range rvCands {
+			rq = append(rq, rc.req, rc.reqSs)
+		}
+		rans, err := RunModel(model, rq)
+		for i, rc := range rvCands {
+			if err == nil && (sameList(splitResults(rc.d.Impl), splitResults(rans[2*i]), false) || sameList(splitResults(rc.d.Impl), splitResults(rans[2*i+1]), false)) {
+				rc.d.Class = "filter-root-operand-in-locate-walk"
+			}
+			rep.Add(rc.d)
+		}
+	}
 	rep.Distinct = len(distinct)
 	rep.Rule = "seeded paths (not ending in a bare descent) x seeded trees; Has, FirstFound, Locate (each path re-evaluated with Get), Expr.Walk, GetNodes/FirstNode/Get on the generified tree, Get/Has on Keyed+Indexed wrappers and on a typed slice, all against the extracted get_spec / first_spec / has_spec / locate_spec; non-trivial = distinct (path,data) with a non-empty specified result"
 	return rep
+}
+
+// filterHasRootOperand: some filter of the path has an operand anchored at $
+func filterHasRootOperand(path []Frag) bool {
+	for _, f := range path {
+		if f.Kind == "f" && strings.Contains(f.Eq.Sexp(), "(p R") {
+			return true
+		}
+	}
+	return false
 }
